@@ -20,7 +20,7 @@ _TASKS = []
 _SEED = 0
 
 
-class _Alarm(Exception):
+class _Alarm(BaseException):
     pass
 
 
@@ -110,7 +110,7 @@ def main(argv=None):
     pid = a.prop.upper()
     tier = "thorough" if a.tier.startswith("t") else "quick"
     if tier == "thorough" and "VERIF_XCHECK" not in os.environ:
-        os.environ["VERIF_XCHECK"] = "1"      # thorough: every goal query is re-decided by z3 4.8.12 and cvc5 (SMT-LIB2 dump)
+        os.environ["VERIF_XCHECK"] = "1"      # thorough: goal queries (the first 24 per obligation) are re-decided by z3 4.8.12 and cvc5 (SMT-LIB2 dump)
     _SEED = int(os.environ.get("VERIF_SEED", "0") or 0)
     t0 = time.time()
 
@@ -246,7 +246,7 @@ def write_evidence(pid, tier, meta, recs, wall, n_viol):
         "storage_type_variants_replayed": sum(r.get("dtype_variants", 0) for r in recs),
         "cross_solver": {k: {"agree": sum((r.get("cross_solver") or {}).get(k, {}).get("agree", 0) for r in recs),
                              "unknown_or_timeout": sum((r.get("cross_solver") or {}).get(k, {}).get("unknown", 0) for r in recs)}
-                         for k in ("z3-4.8.12", "cvc5")},
+                         for k in ("z3-4.8.12", "cvc5")} | {"goal_queries_skipped_over_per_obligation_budget": sum((r.get("cross_solver") or {}).get("skipped_over_budget", 0) for r in recs)},
         "programs": sum(r.get("programs", 0) for r in recs),
         "disagreements_checked": sum(r.get("disagreements_checked", 0) for r in recs),
         "outside_claim": meta.get("outside_claim", []),
